@@ -59,6 +59,9 @@ type Spec struct {
 	// Window returns true for marks that open/close the window in which crash positions are
 	// taken: positions are used only while inWindow is true. nil = between START and END.
 	Window func(mark string, inWindow bool) bool
+	// Prefer, when set, marks positions that are sampled first (up to half of PosPer): it gets
+	// the most recent workload mark before the position and the kind of event at the position.
+	Prefer func(lastMark, what string) bool
 	// Build turns a (position, crash state, surviving kv prefix, model) into a job's Expect and
 	// Sig; returning nil skips the state.
 	Build func(p Pos, cs sysjournal.CrashState, kvn uint64, model string) (expect any, sig string)
@@ -176,9 +179,30 @@ func Run(s *Spec, workloadFailed func(exit int, out []byte)) (Stats, bool) {
 				special = append(special, c)
 			}
 		}
+		if s.Prefer != nil {
+			var pref []int
+			mi, last := 0, ""
+			for _, c := range cands {
+				for mi < len(marks) && marks[mi].pos <= c {
+					last = marks[mi].text
+					mi++
+				}
+				if s.Prefer(last, what[c]) {
+					pref = append(pref, c)
+				}
+			}
+			s.Rng.Shuffle(len(pref), func(i, j int) { pref[i], pref[j] = pref[j], pref[i] })
+			for _, c := range pref {
+				if len(chosen) >= s.PosPer/2 {
+					break
+				}
+				chosen[c] = true
+			}
+			r.Count("crash_positions_preferred", len(chosen))
+		}
 		s.Rng.Shuffle(len(special), func(i, j int) { special[i], special[j] = special[j], special[i] })
 		for _, c := range special {
-			if len(chosen) >= s.PosPer*2/3 {
+			if len(chosen) >= s.PosPer*5/6 {
 				break
 			}
 			chosen[c] = true
